@@ -19,3 +19,15 @@ Definition expr_shoup_mul (bits degree nmoduli : Z) (op A B P : list Z) : option
     bind (map_opt (fun cm => map_opt (fun i => msh_k bits (tabP P (Z.of_nat cm)) (nth (cm * n + i) op 0) (nth (cm * n + i) A 0) (nth (cm * n + i) B 0)) (seq 0 n)) (seq 0 nm))
          (fun rows => Some (concat rows ++ skipn (nm * n) op))
   else None.
+
+(* ---- ops::expr<Op, Args...>::operator bool(), as tools/cxxexprbool2coq.py emits it: the loop nest over the moduli, the vectors of VS elements
+   and the lanes, with its early return; REQ = bool_requires_all<Op>::value (all-of conversion: `==`), val cm i = the value of the expression at
+   (cm, i) (what load<simd_mode> delivers lane by lane: C07).  The static_assert(vector_bound == degree) is the guard: no result otherwise. *)
+Definition lane_test (REQ : bool) (v : Z) : bool := if REQ then (v =? 0) else negb (v =? 0).
+Definition scan (REQ : bool) (VS : Z) (degree nmoduli : Z) (val : Z -> Z -> Z) : option bool :=
+  if (degree / VS * VS =? degree) then
+    bind (for_up 0 nmoduli 1 (fun cm (st : option bool) =>
+            for_up 0 (degree / VS * VS) VS (fun j st =>
+              for_up 0 VS 1 (fun k st => match st with Some r => Some (Some r) | None => Some (if lane_test REQ (val cm (j + k)) then Some (negb REQ) else None) end) st) st) None)
+         (fun st => Some (match st with Some r => r | None => REQ end))
+  else None.
